@@ -62,7 +62,7 @@ VH_GROUP(seeds)
         sv.name = s.name; sv.bytes = &s.bytes; sv.path = file.path;
         sv.expected = &s.expected; sv.expected_alt = &s.expected_alt; sv.exp_channels = s.channels; sv.exp_w = s.w; sv.exp_h = s.h;
         sv.file_bpp = s.prop("bpp");
-        sv.subrects = allrect || (s.w <= 5 && s.h <= 4);
+        sv.subrects = (allrect && s.w * s.h <= 20) || (s.w <= 5 && s.h <= 4);
         // GIL documents: the targa scanline reader handles only uncompressed files with a bottom-left origin
         sv.scan_expected = s.prop("tga_type") == 2 && !s.prop("tga_top");
         ++ctx.witness[std::string("tga_bpp") + std::to_string(s.prop("bpp"))];
